@@ -24,7 +24,10 @@ in list order; the harness hands the snapshot over in the node order the impleme
 Not modelled (see bin/props/C17.json): Raft indexes (Create/ModifyIndex) and the index table, every
 field of Node / NodeService / HealthCheck beyond one content field each (address, port, status),
 non-typical service kinds (virtual IPs, mesh topology, gateways), sessions, coordinates,
-enterprise partitions / namespaces.
+enterprise partitions / namespaces, and the state store's change-event hook (`catalog_events.go`), which
+can fail a commit only for names that differ in case. `deleteCheckTxn` panics on a service check whose
+service row is missing; no sequence of the modelled commands creates one (a service goes with its
+checks), so the model has no such branch — the harness reports any state-store panic it meets.
 Core-only Lean; no Mathlib.
 -/
 import CV.Proto
